@@ -186,6 +186,9 @@ func (lm *levelManager) searchLowerBound(key types.Key) (types.Entry, bool) {
 		return types.Entry{}, false
 	}
 
+	var best types.Entry
+	var found bool
+
 	for level, tables := range lm.levels {
 		for e := tables.Front(); e != nil; e = e.Next() {
 			th := e.Value.(tableHandle)
@@ -205,13 +208,15 @@ func (lm *levelManager) searchLowerBound(key types.Key) (types.Entry, bool) {
 
 			// in this sstable, search according to data block
 			entry, ok := lm.fetchAndSearchLowerBound(key, level, th.levelIdx, dataBlockHandle)
-			if ok {
-				return entry, true
+			// a lower bound of another user key says nothing about the target key,
+			// among the tables holding the target key the newest version wins
+			if ok && types.IsSameKey(key, entry.Key) && (!found || types.CompareKeys(entry.Key, best.Key) < 0) {
+				best, found = entry, true
 			}
 		}
 	}
 
-	return types.Entry{}, false
+	return best, found
 }
 
 // TODO: replace with iterator
